@@ -588,7 +588,12 @@ func parseBlocks(fset *token.FileSet, path string, src []byte, pkgPath string) (
 						if cur.PropKinds == nil {
 							cur.PropKinds = map[string][]string{}
 						}
-						cur.PropKinds[pw[:i]] = strings.Split(pw[i+1:], ",")
+						// a repeated "props Cxx:kinds" adds kinds, it never drops some
+						for _, k := range strings.Split(pw[i+1:], ",") {
+							if !contains(cur.PropKinds[pw[:i]], k) {
+								cur.PropKinds[pw[:i]] = append(cur.PropKinds[pw[:i]], k)
+							}
+						}
 						pw = pw[:i]
 					}
 					cur.Props = append(cur.Props, pw)
@@ -1301,9 +1306,14 @@ func expandRules(ld *Loaded) error {
 						eb.PropKinds = cp
 					}
 					for k, v := range r.PropKinds {
-						if _, has := eb.PropKinds[k]; !has {
-							eb.PropKinds[k] = v
+						// the kinds a rule asks for are added to those the block names itself
+						merged := append([]string{}, eb.PropKinds[k]...)
+						for _, kind := range v {
+							if !contains(merged, kind) {
+								merged = append(merged, kind)
+							}
 						}
+						eb.PropKinds[k] = merged
 					}
 				}
 				if eb.FromRule != nil && !r.Flags["post-all"] {
